@@ -243,7 +243,8 @@ def r3_entrypoints(ctx):
     ms = ctx.repo.cls('dataflows.base.datastream:DataStream').methods['merge_stats']
     run.check(has_stmt('for _s in self.stats:\n    _ret.update(_s)', ms.node), 'R3', ms.where, ms.qualname,
               'merge_stats: update in step order', 'stats of the steps are not merged in pipeline order')
-    # the driver loop consumes every stream on every path
+    # the driver loop consumes every stream on every path (helpers the loop body was split into are inlined)
+    sp = ctx.N(sp)
     facts = Facts(sp, include_nested=False)
     loops = [n for n in own_nodes(sp.node) if isinstance(n, ast.For) and 'res_iter' in u(n.iter)]
     if len(loops) != 1:
